@@ -116,6 +116,32 @@ def run_case(case):
     a = pos[case['a']]
     scale = max(abs(v) for v in values)
     try:
+        if case['a'] == 1 and len(knots) <= 5:
+            # the tabulating command, once per small (set, pattern)
+            from mc.lib import dumps
+            pars = {'specific_yield': {'type': 'spline',
+                                       'zeta_knots_mm': list(knots),
+                                       'sy_knots': list(values)},
+                    'transmissivity': {'type': 'peatclsm', 'Ksmacz0': 7.3,
+                                       'alpha': 3, 'zeta_max_cm': 1.0}}
+            lo_cm, hi_cm = (knots[0] - 40.0) / 10, (knots[-1] + 40.0) / 10
+            status, exc, rows, _ = dumps.run_dump('specific-yield', pars,
+                                                  lo_cm, hi_cm, 8)
+            if status != 0:
+                viol.append(('dump-failed', repr(exc)))
+            else:
+                import numpy as np
+                for (level_cm, value), wl_cm in zip(rows, np.linspace(
+                        lo_cm, hi_cm, 8)):
+                    if not abs(level_cm - wl_cm) <= 1e-9 * (abs(wl_cm) + 1) \
+                            or not abs(value - float(sy(wl_cm * 10.0))) \
+                            <= 1e-12:
+                        viol.append(('dump-row',
+                                     'specific-yield dump row (%r cm, %r) '
+                                     'but Sy(%r mm) = %r'
+                                     % (level_cm, value, wl_cm * 10.0,
+                                        float(sy(wl_cm * 10.0)))))
+                        break
         if case['a'] == 0:
             # knot values and constant extrapolation, once per (set, pattern)
             for k, v in zip(knots, values):
